@@ -27,7 +27,8 @@ class C03(Prop):
                    'repeated projections; dense / sparse / LinearOperator queries of kinds identity, prefix, random square, tall, wide, scaled; noise scales differing '
                    'by up to 8x; total supplied or estimated) the real estimate() is run with each of MD, RDA and IG. The harness solves '
                    'min 0.5*||(A p - b)/sigma||^2 over p >= 0, sum p = model.total on the full table, computes the Frank-Wolfe gap g_ref of its solution, and checks '
-                   'L_ref - g_ref - tol <= L(model) <= L_ref + tol with tol = 1e-3*(L(uniform) - L_ref) + 1e-9, and L(model) <= L(uniform). '
+                   'L_ref - g_ref - tol <= L(model) <= L_ref + tol with tol = 1e-3*(L(uniform) - L_ref) + 1e-9, and L(model) <= L(uniform); the loss of the full table model.datavector() (the returned PARAMETERS, '
+                   'which RDA / IG refit with GraphicalModel.mle) is within tol of the loss of the stored clique marginals. '
                    '"Given enough iterations" is instantiated as 5000 (quick) / 50000 (thorough) iterations; a case that misses the upper bound by less than 100*tol is re-run once with 4x '
                    'the iterations before it is reported.')
     rule = ('seeded (VERIF_SEED) instances: template in {overlap, cyclic, nested, conflict, chain4, cyclic4, nested4}, attribute sizes 2..4 with <= 200 cells, records N in '
@@ -70,6 +71,12 @@ class C03(Prop):
                                  noise=float(base * rng.choice([0.5, 1.0, 2.0, 4.0]))))
             insts.append(dict(template=tname, attrs=attrs, sizes=sizes, N=N, regime=regime, meas=meas, seed=int(rng.randint(1 << 30)),
                               total='known' if i % 2 == 0 else 'estimated'))
+        # a chain whose middle clique is the largest: ordering the cliques by size is then NOT a running-intersection order, which the
+        # refit of RDA / IG (GraphicalModel.mle) relies on
+        meas = [dict(proj=[a, b], qkind='identity', form='dense', qseed=int(rng.randint(1 << 30)), noise=float(rng.choice([2.0, 5.0])))
+                for a, b in (('a', 'b'), ('b', 'c'), ('c', 'd'))]
+        insts.append(dict(template='chain4-middle-largest', attrs=['a', 'b', 'c', 'd'], sizes=[2, 4, 4, 2], N=300, regime='medium', meas=meas,
+                          seed=int(rng.randint(1 << 30)), total='known'))
         # slowest solver first so that the pool is packed well; every instance with every solver
         for solver in ['MD', 'RDA', 'IG']:
             for j, inst in enumerate(insts):
@@ -125,10 +132,14 @@ class C03(Prop):
             for Q, y, s, p in zip(Qs, ys, sig, projs):
                 r = (Q @ np.asarray(model.project(p).datavector(), dtype=float) - y) / s
                 Lm += 0.5 * float(r @ r)
+            # the same loss read off the model's full table (its parameters), not its stored clique marginals
+            tab = np.asarray(model.datavector(), dtype=float)
+            self._table = dict(L=IC.ls_loss(A, b, tab), total=float(tab.sum()), finite=bool(np.all(np.isfinite(tab))))
             return T, Lm
 
         T, Lm = run(case['iters'])
         first_Lm = Lm
+        table = dict(self._table)
         p_ref, L_ref, g_ref = IC.solve_simplex_ls(A, b, T)
         L_uni = IC.ls_loss(A, b, np.full(n, T / n))
         tol = 1e-3 * (L_uni - L_ref) + 1e-9
@@ -158,6 +169,10 @@ class C03(Prop):
             # the harness's own certificate is not sharp enough to decide the bracket on this instance: say so, decide nothing
             out.append(('skipped-reference-not-certified', True, det))
             return out
+        # the distribution the returned parameters define fits as well as the clique marginals the solver stored next to them
+        out.append(('full-table-of-returned-model-fits-as-well-as-its-marginals',
+                    table['finite'] and table['L'] <= max(first_Lm, L_ref) + tol + 1e-6 * (1 + abs(first_Lm)),
+                    dict(solver=case['solver'], L_full_table=table['L'], L_stored_marginals=first_Lm, L_ref=L_ref, tol=tol, table_total=table['total'])))
         out += [('loss-not-above-certified-optimum', Lm <= L_ref + tol, det),
                 ('loss-not-below-certified-lower-bound', Lm >= L_ref - g_ref - tol, det)]
         return out
